@@ -33,7 +33,8 @@ VARIABLES p,        \* parameters of the pacer (the Reset record)
 
 vars == <<p, t, hits, nhits, phase, due, stalled, l>>
 
-MaxInt64 == <<5807, 4775, 3685, 3372, 922>>      \* 9223372036854775807
+MaxInt64 == <<5807, 5477, 368, 3372, 922>>      \* 9223372036854775807
+ASSUME B!Eq(B!Add(MaxInt64, <<1>>), B!Mul(B!Mul(B!FromNat(2097152), B!FromNat(2097152)), B!FromNat(2097152)))     \* (the limbs were once mistyped: the constant is checked, not trusted)
 
 One == <<1>>
 N(x) == B!FromNat(x)
@@ -80,6 +81,11 @@ ConstantConsultOK(e) ==
                  p.idiv.q # << >> /\ B!Gt(B!Mul(B!Add(hits, One), p.idiv.q), MaxInt64)
             ELSE /\ (e.wsign = 1 => AheadOrOn(e))                        \* WaitOnlyWhenAhead
                  /\ (e.wsign = 1 => B!Le(B!Add(e.t, e.wait), MaxInt64))   \* NoWrap: a real duration, not a wrapped one
+                 \* NoSilentOverflow: when the count is not behind, the instant of the next hit, (hits+1)*interval, is
+                 \* representable - otherwise the pacer has to stop ("overflow stops the attack instead of wrapping")
+                 /\ B!IsDivMod(e.t, P, e.ediv.q, e.ediv.r)
+                 /\ ((~B!Lt(hits, B!Mul(F, e.ediv.q)) /\ p.idiv.q # << >>)
+                        => B!Le(B!Mul(B!Add(hits, One), p.idiv.q), MaxInt64))
          /\ (CheckExact => ExactWait(e))
 
 \* --- sine / linear pacers: schedule bounds supplied with the event
@@ -99,6 +105,13 @@ TConsult ==
           ELSE phase' = "sleep" /\ due' = IF e.wsign = 1 THEN B!Add(t, e.wait) ELSE t
     /\ l' = l + 1
     /\ UNCHANGED <<p, t, hits, nhits, stalled>>
+
+\* the pacer is a function of (elapsed, hits): it may be asked about any point, not only those a closed loop reaches
+TJump ==
+    /\ IsEv(l, "Jump")
+    /\ t' = Ev(l).t /\ hits' = Ev(l).hits /\ phase' = "consult" /\ due' = << >> /\ stalled' = TRUE
+    /\ l' = l + 1
+    /\ UNCHANGED <<p, nhits>>
 
 \* an arbitrary extra delay (between the consultation and the release, or after the release)
 TStall ==
@@ -133,7 +146,7 @@ TRelease ==
     /\ l' = l + 1
     /\ UNCHANGED <<p, due, stalled>>
 
-TNext == TReset \/ TConsult \/ TStall \/ TRelease
+TNext == TReset \/ TConsult \/ TStall \/ TRelease \/ TJump
 TSpec == TInit /\ [][TNext]_vars
 HW == HighWater(l)
 =============================================================================
